@@ -109,9 +109,38 @@ Definition arch_answer_ok (ix : index) (q : query) (a : answer) : bool :=
   | _, _ => true
   end.
 
-Definition arch_check (c : list member * list (query * answer)) : bool :=
-  let ix := build (fst c) in forallb (fun x => arch_answer_ok ix (fst x) (snd x)) (snd c).
+(* a member arrives as the components std::path reports for its name (`..` and `.` included) and
+   whether it is a directory; what register_file makes of it is Ref.Watcher.walk over the parent's
+   components, then the stem pushed (tied to the printed closures by Tie/ArchivePath.v); a path the
+   parsing rejects registers nothing *)
+From AM Require Ref.Watcher.
+Definition raw_member : Type := (list Ref.Watcher.comp * bool)%type.
+Definition PN := Ref.Watcher.CNormal.
+Definition PP := Ref.Watcher.CParent.
+Definition PC := Ref.Watcher.CCur.
 
-Definition arch_explain (c : list member * list (query * answer)) :=
-  let ix := build (fst c) in
+Definition member_of_path (m : raw_member) : option member :=
+  let '(p, is_dir) := m in
+  match rev p with
+  | Ref.Watcher.CNormal name :: rparent =>
+      match Ref.Watcher.walk [] (rev rparent) with
+      | Some b =>
+          let '(stem, ext) := Ref.Watcher.split_name name in
+          match Ref.Watcher.id_push b stem with
+          | Some i => Some (if is_dir then MDir i else MFile i (match ext with Some e => e | None => "" end))
+          | None => None
+          end
+      | None => None
+      end
+  | _ => None
+  end.
+
+Definition members_of_paths (l : list raw_member) : list member :=
+  flat_map (fun m => match member_of_path m with Some x => [x] | None => [] end) l.
+
+Definition arch_check (c : list raw_member * list (query * answer)) : bool :=
+  let ix := build (members_of_paths (fst c)) in forallb (fun x => arch_answer_ok ix (fst x) (snd x)) (snd c).
+
+Definition arch_explain (c : list raw_member * list (query * answer)) :=
+  let ix := build (members_of_paths (fst c)) in
   (idirs ix, filter (fun x => negb (arch_answer_ok ix (fst x) (snd x))) (snd c)).
